@@ -121,28 +121,34 @@ def run_case(case):
     r = _run(case)
     me = {k: case[k] for k in ('traj', 'opt', 'pm', 'fuel', 'spell') if k in case}
     if r['violations'] and _STATE.get('prev') is not None:
-        # configurations evaluated earlier in this worker (the first one and the one just before):
-        # needed to replay violations caused by state that survives a configuration reload (caches)
-        r['replay_case'] = dict(case, prev=_STATE['prev'], first=_STATE['first'])
+        # configurations evaluated earlier in this worker: the first one, the earliest one that used each
+        # (option, value, spelling, fuel, model) and the one just before - needed to replay violations caused by
+        # state that survives a configuration reload (caches and memos filled by an earlier configuration)
+        r['replay_case'] = dict(case, prev=_STATE['prev'], first=_STATE['first'], earlier=list(_STATE['earliest'].values()))
     _STATE.setdefault('first', me)
     _STATE['prev'] = me
+    ear = _STATE.setdefault('earliest', {})
+    for k, i in zip(ec.OPTION_AXES, case['opt']):
+        ear.setdefault((k, i, case.get('spell'), case.get('fuel'), case.get('pm')), me)
     return r
 
 
 def replay(case):
-    """Re-create the worker's relevant history in a fresh process: the first configuration the
-    worker evaluated, the one evaluated just before, then the case. A violation that does not depend
-    on history shows up regardless; one caused by state surviving a configuration reload (caches
-    filled under another configuration) needs the predecessors - and a cold evaluation first would
-    fill those caches the other way round and mask it."""
-    for k in ('first', 'prev'):
-        if case.get(k):
-            _run(case[k])
+    """Re-create the worker's relevant history in a fresh process: the first configuration the worker
+    evaluated, the earliest configuration that used each option value (in their original order), the one
+    evaluated just before, then the case. A violation that does not depend on history shows up regardless; one
+    caused by state surviving a configuration reload (caches or memos filled under another configuration)
+    needs the predecessors - and a cold evaluation first would fill those caches the other way round and
+    mask it."""
+    seen = []
+    for c in [case.get('first')] + list(case.get('earlier') or []) + [case.get('prev')]:
+        if c and c not in seen:
+            seen.append(c)
+            _run(c)
     r = _run(case)
-    if case.get('first') or case.get('prev'):
-        cold_note = 'after-earlier-configuration:'
+    if seen:
         for v in r['violations']:
-            v['detail'] = f'[replayed after configurations first={case.get("first")} prev={case.get("prev")}] ' + v['detail']
+            v['detail'] = f'[replayed after {len(seen)} earlier configurations of the same worker; first={case.get("first")} prev={case.get("prev")}] ' + v['detail']
     return r['violations']
 
 
